@@ -204,18 +204,16 @@ class _MCQuad(torch.autograd.Function):
             # derivative of fparams
             dLdthetaf = []
             if len(ftensor_params) > 0:
-                dLdthetaf = torch.autograd.grad(fout, ftensor_params,
-                                                grad_outputs=grad_epf,
-                                                retain_graph=True,
-                                                create_graph=local_grad_enabled)
+                dLdthetaf = _grad_or_zeros(fout, ftensor_params,
+                                           grad_outputs=grad_epf,
+                                           create_graph=local_grad_enabled)
             # derivative of pparams
             dLdthetap = []
             if len(ptensor_params) > 0:
                 dLdef = torch.dot((fout - epf).reshape(-1), grad_epf.reshape(-1))
-                dLdthetap = torch.autograd.grad(pout, ptensor_params,
-                                                grad_outputs=dLdef.reshape(pout.shape),
-                                                retain_graph=True,
-                                                create_graph=local_grad_enabled)
+                dLdthetap = _grad_or_zeros(pout, ptensor_params,
+                                           grad_outputs=dLdef.reshape(pout.shape),
+                                           create_graph=local_grad_enabled)
             # combine the states needed for backward
             outs = (
                 *dLdthetaf,
@@ -247,6 +245,19 @@ class _MCQuad(torch.autograd.Function):
         dLdtp = ctx.pparam_sep.reconstruct_params(dLdthetap, dLdpnontensor)
         return (None, None, None, None, None, None, None, None, None, None, None,
                 *dLdtf, *dLdtp)
+
+def _grad_or_zeros(out, params, grad_outputs, create_graph):
+    # gradient of out w.r.t. params; the parameters that do not enter out
+    # (or all of them, if out does not depend on any) get zeros
+    if not out.requires_grad:
+        return tuple(torch.zeros_like(p) for p in params)
+    grads = torch.autograd.grad(out, params,
+                                grad_outputs=grad_outputs,
+                                retain_graph=True,
+                                create_graph=create_graph,
+                                allow_unused=True)
+    return tuple(torch.zeros_like(p) if g is None else g
+                 for (g, p) in zip(grads, params))
 
 def _integrate(ffcn, xsamples, wsamples, fparams):
     nsamples = len(xsamples)
